@@ -108,6 +108,10 @@ func runRF(c RFCase) (msg string) {
 		os.Chmod(filepath.Join(dir, vol), 0o000)
 	case "nowrite-dir":
 		os.Remove(filepath.Join(dir, "b.dat"))
+	case "nowrite-dangling":
+		// the data file was replaced by a symlink that points into a directory that does not exist
+		os.Remove(filepath.Join(dir, "b.dat"))
+		os.Symlink(filepath.Join(dir, "no-such-dir", "x", "b.dat"), filepath.Join(dir, "b.dat"))
 	case "nowrite-file":
 		os.WriteFile(filepath.Join(dir, "b.dat"), []byte("damaged!!!!"), 0o644)
 	}
@@ -149,7 +153,7 @@ func runRF(c RFCase) (msg string) {
 		if r.VerifyErr == "" || r.RepairErr == "" {
 			return fmt.Sprintf("a file could not be read (permission denied) but Verify err=%q, Repair err=%q: only a missing file may be treated as damage", r.VerifyErr, r.RepairErr)
 		}
-	case "nowrite-dir", "nowrite-file":
+	case "nowrite-dir", "nowrite-file", "nowrite-dangling":
 		if r.RepairErr == "" || r.Repaired != 0 {
 			return fmt.Sprintf("the write of the repaired file failed (permission denied) but Repair err=%q and reports %d repaired paths", r.RepairErr, r.Repaired)
 		}
@@ -163,7 +167,7 @@ func realFSFaults(rec *run.Rec) {
 		return
 	}
 	for _, f := range []string{"par2", "par1"} {
-		for _, k := range []string{"nolist", "noread-data", "noread-volume", "nowrite-dir", "nowrite-file"} {
+		for _, k := range []string{"nolist", "noread-data", "noread-volume", "nowrite-dir", "nowrite-file", "nowrite-dangling"} {
 			c := RFCase{Format: f, Fault: k}
 			rec.Eval()
 			rec.Class("realfs:" + k)
